@@ -68,6 +68,8 @@ func c01Witnesses() []witness {
 		}), inp(11, 12, 13, 14, 0, 1, 2)},
 		{"f2iRange", baseWitness([]*wstmt{wStore(0, wBitcast(tU32, &wexpr{k: "cast", ty: tI32, args: []*wexpr{wBitcast(tF32, wInp(0))}}))}), inp(0x4f000000)},
 		{"f2iRange", baseWitness([]*wstmt{wStore(0, &wexpr{k: "cast", ty: tU32, args: []*wexpr{wBitcast(tF32, wInp(0))}})}), inp(0xbf800000)},
+		{"bitField", baseWitness([]*wstmt{wStore(0, wCall(tU32, "extractBits", wInp(0), wBin(tU32, "&", wInp(1), wLitU(63)), wBin(tU32, "&", wInp(2), wLitU(63))))}), inp(0xdeadbeef, 20, 20)},
+		{"frem", baseWitness([]*wstmt{wStore(0, wBitcast(tU32, wBin(tF32, "%", wBitcast(tF32, wInp(0)), wBitcast(tF32, wInp(1)))))}), inp(0xc0600000, 0x40000000)},
 		{"fordne", baseWitness([]*wstmt{wStore(0, sel(wBin(tBool, "!=", wBitcast(tF32, wInp(0)), wBitcast(tF32, wInp(1)))))}), inp(0x7fc00000, 0x3f800000)},
 	}
 }
